@@ -195,6 +195,10 @@ def elem_apply(ufunc, *args):
 _REDUCERS = {}
 
 
+_BOOL_UFUNCS = {np.greater, np.greater_equal, np.less, np.less_equal, np.equal, np.not_equal, np.logical_and,
+                np.logical_or, np.logical_not, np.logical_xor, np.isnan, np.isinf, np.isfinite}
+
+
 def dispatch_ufunc(ufunc, method, inputs, kwargs):
     out = kwargs.pop("out", None)
     if kwargs.get("where", True) is not True:
@@ -217,6 +221,9 @@ def dispatch_ufunc(ufunc, method, inputs, kwargs):
             flats = [b.reshape(-1) for b in bargs]
             for i in range(rflat.shape[0]):
                 rflat[i] = elem_apply(ufunc, *[f[i] for f in flats])
+            if ufunc in _BOOL_UFUNCS and not masks and all(isinstance(e, (bool, np.bool_)) for e in rflat):
+                # every element was decided on this path: a real boolean array, as NumPy returns
+                return np.array([bool(e) for e in rflat], dtype=bool).reshape(shape).view(SymArray)
             res = res.view(SymArray)
             if masks:
                 m = masks[0]
@@ -517,6 +524,42 @@ def l_unique(xs):
     return out
 
 
+def _any_masked(x):
+    if isinstance(x, SymArray):
+        return x._mask is not None
+    if isinstance(x, (list, tuple)):
+        return any(_any_masked(e) for e in x)
+    return False
+
+
+def _plain_args(xs):
+    out = []
+    for x in xs:
+        if isinstance(x, SymArray):
+            a = np.asarray(x.view(np.ndarray))
+            try:
+                out.append(a.astype(float) if a.dtype == object else a)
+            except (TypeError, ValueError):
+                out.append(a)
+        elif isinstance(x, list):
+            out.append(_plain_args(x))
+        elif isinstance(x, tuple):
+            out.append(tuple(_plain_args(x)))
+        else:
+            out.append(x)
+    return out
+
+
+def _rewrap(r):
+    if isinstance(r, np.ndarray) and not isinstance(r, np.ma.MaskedArray):
+        return sa(r) if r.ndim > 0 else r[()]
+    if isinstance(r, tuple):
+        return tuple(_rewrap(e) for e in r)
+    if isinstance(r, list):
+        return [_rewrap(e) for e in r]
+    return r
+
+
 # ------------------------------------------------------------------ the array
 class SymArray(np.ndarray):
     _mask = None
@@ -533,6 +576,12 @@ class SymArray(np.ndarray):
             return h(*args, **kwargs)
         if func in PASS_THROUGH:
             return super().__array_function__(func, types, args, kwargs)
+        if not has_sym(args) and not has_sym(list(kwargs.values())) and not _any_masked(args):
+            # every element is a concrete number on this path: the library function itself is run
+            # on plain float arrays (no model involved) and its result is wrapped again
+            MODELS_USED.add("numpy.%s (concrete operands: the library itself)" % getattr(func, "__name__", func))
+            r = func(*_plain_args(args), **{k: _plain_args([v])[0] for k, v in kwargs.items()})
+            return _rewrap(r)
         raise Unsupported("numpy.%s on symbolic arrays is not modelled" % getattr(func, "__name__", func))
 
     # -- indexing
